@@ -492,10 +492,6 @@ func (m *M) Live() []string {
 // LiveOnlyTopSenders: every remaining process is poised at a positive action on a
 // top-level channel that nobody consumes (the only survivors C02 admits in sync mode).
 func (m *M) FinalOK() (bool, string) {
-	topc := map[int]bool{}
-	for _, c := range m.Top {
-		topc[c] = true
-	}
 	for _, p := range m.procs {
 		pos, at := p.selfAction()
 		if !at || !pos {
